@@ -26,7 +26,16 @@ PROP = dict(
          "0..39, candidate calls with indices -1 / huge, user-phrase add / remove / lookup / enumerate / get with short caller "
          "buffers, enumerations left pending across dictionary updates, keyboard-type enumerations read up to 600 times past "
          "their end, reset / clean calls; every getter after every call; tests/data and the built-in dictionary), each call under a "
-         "1 s CPU-time + 10 s wall watchdog",
+         "1 s CPU-time + 10 s wall watchdog. Classification: every failure (panic, abort, hang, accessor failure) is `new` - no "
+         "known class remains. States with a buffered syllable WITHOUT A WORD (the former class of F02 / F03, repaired) are "
+         "exercised on purpose and counted: editor harness c01_steps_from_noword_state (+ .engine0/1/2, .choice_forward / "
+         ".choice_rearward, .list_open, .op_*), c01_sessions_reaching_noword_state, c01_sessions_with_noword_scenarios, "
+         "c01_noword_state_entered_by.*; C-API campaign: a directed corpus replayed on every run (35 histories; the former F02 / "
+         "F03 / simple-engine-hang witnesses as they were and continued with Down / cand_open / cand_list_first/last/next/prev / "
+         "choose / Tab / Enter, the list opened under each engine, j / k onto the syllable from a neighbour, auto-commit with "
+         "threshold 0..2: former_noword_class_witnesses = former_noword_class_witnesses_clean) and calls_from_noword_state, "
+         "histories_reaching_noword_state, noword_incl_directed.* measured by replaying a sample of the generated histories with "
+         "the state predicate evaluated before every call (calls_from_noword_state_estimated_campaign)",
     trusted_base=[
         "hook H1 (Editor::verif_snapshot, TrieBuf::verif_snapshot) is read-only; the layout and conversion answers of each step "
         "are recorded through wrapper objects installed through the public constructors",
@@ -36,20 +45,24 @@ PROP = dict(
         "C-API campaign: worker processes of the harness binary itself; death by SIGABRT/SIGILL/SIGTRAP = abort, SIGVTALRM / "
         "SIGALRM = hang (re-run once alone to confirm); the state right before the failing call is re-created by replaying the "
         "history prefix in an inspection process and read through getters that do not convert (phoneSeq, config_get_int, "
-        "cand_CheckDone, userphrase enumeration)",
-        "finding classes are state predicates evaluated by the harness on the real state (KNOWN_FINDINGS.txt); the panic site "
-        "(file, message) is printed for information and never used to classify",
+        "cand_CheckDone, userphrase enumeration) - for the reader's information only",
+        "no finding class is known for C01 (KNOWN_FINDINGS.txt holds only `fixed:` lines): every failure is reported as new; the "
+        "panic site (file, message) and the word-less-syllable predicate of the former class are printed for information and "
+        "never used to classify; the same predicate, evaluated by the harnesses on the real state, only feeds the statistics "
+        "that show such states are reached",
     ],
     assumptions=[
         "crash = Rust panic (unwinding in the pure API, process abort behind extern \"C\"), overflow and debug assertions on "
         "(debug profile, as the harness is built); hang = a loop of the modelled code that does not terminate. Allocation "
         "failure, stack exhaustion and wall-clock time of the real process are not modelled",
-        "known finding class no-word-for-buffered-syllable (F02, F03): a syllable in the pre-edit buffer without a "
-        "one-syllable word under the lookup strategy in force; the theorems exclude exactly these states and the oracles "
-        "classify by the same predicate on the real state, so a crash from any other state is reported as new",
+        "no known class remains: the former class no-word-for-buffered-syllable (F02, F03: a syllable in the pre-edit buffer "
+        "without a one-syllable word under the lookup strategy in force aborted the next conversion / PhraseSelector::init, or "
+        "hung PhraseSelector::next) is repaired in the repository (43e8036 fallback to the syllable's spelling, 0f255ea selector "
+        "init / next, ce48759 a list without candidates is not opened); the theorems hold without excluding these states and "
+        "the oracles report every failure from any state as new",
         "the in-memory dictionaries of the editor harness never match a partial syllable by prefix (TrieBuf B-tree look-ups "
-        "are exact), so the F02 way into the class (fuzzy engine, partial syllable, engine switch) is exercised by the C-API "
-        "campaign on the real Trie dictionaries only; the F03 way (unlearn the only word) is exercised by both",
+        "are exact), so the F02 way into a word-less state (fuzzy engine, partial syllable, engine switch) is exercised by the "
+        "C-API campaign on the real Trie dictionaries only; the F03 way (unlearn the only word) is exercised by both",
         "chewing_new (default search paths, would touch $HOME) and chewing_set_logger with a callback (variadic) are not called",
         "EnvOK (explicit hypotheses of every theorem): well-formed dictionary values (one character per syllable, closed under "
         "add / update / flush / remove), an exact match is also a prefix match, the engines behave as C03 proves for the engine "
